@@ -27,7 +27,8 @@ CHECK = {
     ],
     "campaigns": [
         {"test": "TestVerifC08", "checks": {"quick": 1200, "thorough": 50000}, "shrinktime": "25s"},
-        {"test": "TestVerifC08Large", "checks": {"quick": 2, "thorough": 32}, "shards": {"quick": 2, "thorough": 16}, "shrinktime": "60s", "mem_gb": 8},
+        {"test": "TestVerifC08Large", "checks": {"quick": 2, "thorough": 32}, "shards": {"quick": 2, "thorough": 16}, "shrinktime": "1s", "mem_gb": 8,
+         "timeout": {"quick": 420, "thorough": 1800}},
         {"test": "TestVerifC08Fixed", "fixed": True, "checks": {"quick": 1, "thorough": 1}},
     ],
     "nontrivial_floor": 0.03,
